@@ -37,6 +37,10 @@ type pendingEv struct{ kind, data string }
 type Task struct {
 	ID   int
 	Name string
+	// LockDepth is maintained by rewritten library code (astyield): mutexes the
+	// task holds right now; touched by the task itself only.
+	LockDepth  int
+	wasRunning bool
 	s    *Sched
 
 	gid    uint64
@@ -65,6 +69,9 @@ type stepHook struct {
 }
 
 type Sched struct {
+	// RealBlocked counts releases after which the task did not reach its next
+	// gate within RealBlockWait (futex mode; see awaitArrival).
+	RealBlocked int
 	Mode     Mode
 	Tape     *Tape
 	Log      *Log
@@ -127,6 +134,13 @@ func (s *Sched) Cur() *Task {
 	return nil
 }
 
+//go:norace
+func (s *Sched) awaitStart(t *Task) {
+	for t.state != stParked {
+		waitWord(&s.fw)
+	}
+}
+
 // Go creates a task. It first runs when the scheduler releases it.
 func (s *Sched) Go(name string, fn func(t *Task)) *Task {
 	t := &Task{ID: len(s.Tasks), Name: name, s: s, doneCh: make(chan struct{})}
@@ -139,7 +153,7 @@ func (s *Sched) Go(name string, fn func(t *Task)) *Task {
 	if s.Mode == ModePlain {
 		<-t.arrive
 	} else if s.Mode == ModeFutex {
-		waitWord(&s.fw)
+		s.awaitStart(t)
 	}
 	return t
 }
@@ -249,6 +263,20 @@ func (s *Sched) runnable() (r []*Task, unfinished int, libBlocked int) {
 	return
 }
 
+// markRunning flags the tasks that are inside the library right now.
+//
+//go:norace
+func (s *Sched) markRunning() int {
+	n := 0
+	for _, t := range s.Tasks {
+		t.wasRunning = t.state == stRunning
+		if t.wasRunning {
+			n++
+		}
+	}
+	return n
+}
+
 //go:norace
 func (s *Sched) noteRelease(t *Task) { s.Log.addSched(s.Steps, t.ID, t.point) }
 
@@ -264,7 +292,49 @@ func (s *Sched) release(t *Task) {
 		synctest.Wait()
 	case ModeFutex:
 		signalWord(&t.fw)
-		waitWord(&s.fw)
+		s.awaitArrival(t)
+	}
+}
+
+// RealBlockWait is how long (real time) the futex-mode scheduler waits for the
+// released task to reach its next gate before it concludes that the task is
+// blocked on a real lock of the code under test (held by a parked task: a
+// sync.Once in progress, a token taken from a channel, a mutex the source
+// rewrite could not see) and goes on with the other tasks. Correct code that
+// never parks inside such a region never gets here; the count is reported.
+var RealBlockWait = 150 * time.Millisecond
+
+//go:norace
+func (s *Sched) awaitArrival(t *Task) {
+	deadline := time.Now().Add(RealBlockWait)
+	for t.state == stRunning {
+		left := time.Until(deadline)
+		if left <= 0 {
+			s.RealBlocked++
+			return // still inside the library: counted as blocked there
+		}
+		waitWordFor(&s.fw, left)
+	}
+}
+
+// waitAnyArrival waits (real time) until some task blocked inside the library
+// parks or finishes.
+//
+//go:norace
+func (s *Sched) waitAnyArrival(d time.Duration) bool {
+	deadline := time.Now().Add(d)
+	for {
+		for _, t := range s.Tasks {
+			if t.state != stRunning && t.wasRunning {
+				t.wasRunning = false
+				return true
+			}
+		}
+		left := time.Until(deadline)
+		if left <= 0 {
+			return false
+		}
+		waitWordFor(&s.fw, left)
 	}
 }
 
@@ -330,6 +400,9 @@ func (s *Sched) Run() error {
 					synctest.Wait()
 				}
 				continue
+			}
+			if s.Mode == ModeFutex && s.markRunning() > 0 && s.waitAnyArrival(20*RealBlockWait) {
+				continue // a task that was blocked on a real lock has come through
 			}
 			return ErrStuck
 		}
